@@ -178,9 +178,9 @@ for _u in (None, "discard"):
     _add("combi/same-names/untrimmed=%s" % _u, r1=("one", "two"), r2=("one", "two"), demux="combi", untrimmed=_u)
 # thorough tier: length filters in front of the larger name sets
 for _u in (None, "discard", "output"):
-    _add("paired/3names+R2/-m/-M/untrimmed=%s" % _u, thorough_only=True, timeout=1500, mode="any", r1=_N3, r2=_M3, demux="name", untrimmed=_u, m="1:2", M="2", short_out=True, long_out=True)
+    _add("paired/3names+R2/-m/-M/untrimmed=%s" % _u, thorough_only=True, timeout=2400, mode="any", r1=_N3, r2=_M3, demux="name", untrimmed=_u, m="1:2", M="2", short_out=True, long_out=True)
 for _u in (None, "discard"):
-    _add("combi/3x3/-m/untrimmed=%s" % _u, thorough_only=True, timeout=3000, mode="both", r1=_N3, r2=_M3, demux="combi", untrimmed=_u, m="2:1", short_out=True)
+    _add("combi/3x3/-m/untrimmed=%s" % _u, thorough_only=True, timeout=4000, mode="both", r1=_N3, r2=_M3, demux="combi", untrimmed=_u, m="2:1", short_out=True)
 
 
 def describe():
